@@ -44,7 +44,7 @@ def chunks(tier):
     b = bounds(tier)
     out = [("A", k) for k in range(26)]
     out += [("P", k) for k in range(0, 118, 8)]
-    out += [("G",), ("D",), ("N",)]
+    out += [("G",), ("D",), ("N",), ("HH", 0), ("HH", 1), ("HH", 2), ("HH", 3)]
     N = b["N"]
     for a in range(1, N + 1):
         J = _J(a)
@@ -63,15 +63,29 @@ def _observe(s, both=True):
 
     try:
         a = formula_to_composition(s)
+        a = _take(a)
     except Exception as e:
         a = "EXC %s" % type(e).__name__
     if not both:
         return a, a
     try:
-        b = Substance.from_formula(s).composition
+        b = _take(Substance.from_formula(s).composition)
     except Exception as e:
         b = "EXC %s" % type(e).__name__
     return a, b
+
+
+def _take(d):
+    """a copy of the returned mapping for the comparison; the returned object itself is then edited the way a caller
+    may legitimately edit its own result (add a key, change the charge) — a later parse must not see those edits"""
+    if not isinstance(d, dict):
+        return d
+    c = dict(d)
+    d[0] = 55
+    d[999] = 1
+    for k in [k for k in d if k not in (0, 999)][:1]:
+        d[k] = d[k] + 1000
+    return c
 
 
 def _same(got, ref):
@@ -195,6 +209,17 @@ def run_chunk(chunk, tier):
                     res.nontrivial += 1
                     _check_accept(res, s, ref, dict(layer="D", s=s, ref={str(k): v for k, v in ref.items()}))
         res.sample(dict(layer="D", example="{[((H2)2)2]2}2"))
+    elif kind == "HH":
+        for i, st in enumerate(F.multi_hydrate_states()):
+            if i % 4 != chunk[1]:
+                continue
+            s = F.string_of(st)
+            ref = F.composition_of(st)
+            res.states += 1
+            res.transitions += F.cost_of(st)
+            res.nontrivial += 1
+            _check_accept(res, s, ref, dict(layer="HH", s=s, ref={str(k): v for k, v in ref.items()}), both=(i % 8 < 4))
+        res.sample(dict(layer="HH", example="Na..7H..C"))
     elif kind == "N":
         for st in F.numeral_states():
             s = F.string_of(st)
@@ -267,8 +292,10 @@ def _flat(core):
 
 def _count_symbols(res, st):
     core, h, chg, pre, suf, pr = st
-    if h:
-        res.symbols["hyd" + h[0] + h[1]] += 1
+    for hp in F.hyd_parts(h):
+        res.symbols["hyd" + hp[0] + hp[1]] += 1
+    if len(F.hyd_parts(h)) == 2:
+        res.symbols["two-hydrate-parts"] += 1
     for x in (chg, pre, suf, pr):
         if x:
             res.symbols[x] += 1
